@@ -4,9 +4,16 @@
 stdin : lines "<dialect> <hex schema json> <hex json array of instances>"   (same lines the C++ executor reads;
         a ":flags" suffix on the dialect is ignored)
 stdout: one line per input line
-          OK <string of 0/1>      verdict per instance (no format checking: no format_checker is passed)
+          OK <P> <R>              P = python-jsonschema verdict per instance (0/1; no format checker is passed),
+                                  R = verdict of the small specification evaluator below (0/1, or ? if it does not
+                                  cover the schema).  P is '?' where python-jsonschema is known not to implement the
+                                  dialect (2019-09 unevaluatedItems next to contains, see py_verdicts).
           BADSCHEMA <message>     the schema is rejected by the dialect's meta-schema (check_schema) -> case is skipped
           ERR <type> <message>    the reference itself failed (unresolvable reference, recursion limit, ...) -> abstain
+
+Two references because python-jsonschema is itself only an implementation: the driver demands a verdict from jsoncons
+only where both references agree (a disagreement is counted as an abstention).  `Spec` is written from the text of
+the specifications (draft-04 .. 2020-12 core/validation) for exactly the vocabulary lib/c11_gen.py generates.
 """
 import json, sys, warnings
 
@@ -28,6 +35,384 @@ def clean(s):
     return s[:200]
 
 
+# ---------------------------------------------------------------------------- specification evaluator
+
+import re
+from fractions import Fraction
+from urllib.parse import unquote
+
+ORDER = ["4", "6", "7", "2019", "2020"]
+
+
+class Unsupported(Exception):
+    pass
+
+
+def is_num(x):
+    return isinstance(x, (int, float)) and not isinstance(x, bool)
+
+
+def json_eq(a, b):
+    if isinstance(a, bool) or isinstance(b, bool):
+        return isinstance(a, bool) and isinstance(b, bool) and a == b
+    if is_num(a) and is_num(b):
+        return a == b                      # python compares int/float exactly
+    if a is None or b is None:
+        return a is None and b is None
+    if isinstance(a, str) or isinstance(b, str):
+        return isinstance(a, str) and isinstance(b, str) and a == b
+    if isinstance(a, list) and isinstance(b, list):
+        return len(a) == len(b) and all(json_eq(x, y) for x, y in zip(a, b))
+    if isinstance(a, dict) and isinstance(b, dict):
+        return set(a) == set(b) and all(json_eq(a[k], b[k]) for k in a)
+    return False
+
+
+KNOWN = {
+    "$ref", "$defs", "definitions", "$anchor", "$id", "id", "$schema", "type", "enum", "const", "minimum", "maximum",
+    "exclusiveMinimum", "exclusiveMaximum", "multipleOf", "minLength", "maxLength", "pattern", "minItems", "maxItems",
+    "uniqueItems", "required", "minProperties", "maxProperties", "dependentRequired", "dependencies", "dependentSchemas",
+    "allOf", "anyOf", "oneOf", "not", "if", "then", "else", "properties", "patternProperties", "additionalProperties",
+    "propertyNames", "items", "prefixItems", "additionalItems", "contains", "minContains", "maxContains",
+    "unevaluatedProperties", "unevaluatedItems",
+}
+
+
+class Spec:
+    def __init__(self, dialect, root):
+        self.d = dialect
+        self.root = root
+        self.anchors = {}
+        self._scan(root)
+
+    def at_least(self, v):
+        return ORDER.index(self.d) >= ORDER.index(v)
+
+    def _scan(self, node):
+        """plain-name identifiers ($anchor / "$id":"#name" / "id":"#name") anywhere in the document"""
+        if isinstance(node, dict):
+            if self.at_least("2019"):
+                a = node.get("$anchor")
+                if isinstance(a, str):
+                    self.anchors[a] = node
+            else:
+                a = node.get("id" if self.d == "4" else "$id")
+                if isinstance(a, str) and a.startswith("#"):
+                    self.anchors[a[1:]] = node
+                elif isinstance(a, str):
+                    raise Unsupported("base-URI changing identifier")
+            if self.at_least("2019") and "$id" in node:
+                raise Unsupported("$id")
+            for v in node.values():
+                self._scan(v)
+        elif isinstance(node, list):
+            for v in node:
+                self._scan(v)
+
+    def resolve(self, ref):
+        if not ref.startswith("#"):
+            raise Unsupported("non-local reference")
+        frag = unquote(ref[1:])
+        if frag == "":
+            return self.root
+        if frag.startswith("/"):
+            node = self.root
+            for tok in frag[1:].split("/"):
+                tok = tok.replace("~1", "/").replace("~0", "~")
+                if isinstance(node, list):
+                    node = node[int(tok)]
+                else:
+                    node = node[tok]
+            return node
+        return self.anchors[frag]
+
+    def valid(self, instance):
+        return self.ev(self.root, instance, 0)[0]
+
+    def ev(self, s, x, depth):
+        """-> (valid, evaluated property names, evaluated item indexes) ; annotations only when valid"""
+        if depth > 60:
+            raise Unsupported("recursion")
+        if s is True:
+            return True, set(), set()
+        if s is False:
+            return False, set(), set()
+        if not isinstance(s, dict):
+            raise Unsupported("schema is not an object or boolean")
+        d = self.d
+        new = self.at_least("2019")
+        for k in s:
+            if k not in KNOWN:
+                raise Unsupported("keyword " + k)
+        if not new and "$ref" in s:          # drafts 4-7: everything next to $ref is ignored
+            return self.ev(self.resolve(s["$ref"]), x, depth + 1)
+        ok = True
+        P, I = set(), set()
+
+        def inplace(sub):
+            r = self.ev(sub, x, depth + 1)
+            if r[0]:
+                P.update(r[1])
+                I.update(r[2])
+            return r[0]
+
+        if "$ref" in s:
+            ok &= inplace(self.resolve(s["$ref"]))
+        if "type" in s:
+            ts = s["type"] if isinstance(s["type"], list) else [s["type"]]
+            ok &= any(self.is_type(x, t) for t in ts)
+        if "enum" in s:
+            ok &= any(json_eq(x, e) for e in s["enum"])
+        if "const" in s and self.at_least("6"):
+            ok &= json_eq(x, s["const"])
+        if is_num(x):
+            if "minimum" in s:
+                if d == "4" and s.get("exclusiveMinimum") is True:
+                    ok &= x > s["minimum"]
+                else:
+                    ok &= x >= s["minimum"]
+            if "maximum" in s:
+                if d == "4" and s.get("exclusiveMaximum") is True:
+                    ok &= x < s["maximum"]
+                else:
+                    ok &= x <= s["maximum"]
+            if d != "4":
+                if "exclusiveMinimum" in s:
+                    ok &= x > s["exclusiveMinimum"]
+                if "exclusiveMaximum" in s:
+                    ok &= x < s["exclusiveMaximum"]
+            if "multipleOf" in s:
+                ok &= (Fraction(x) / Fraction(s["multipleOf"])).denominator == 1
+        if isinstance(x, str):
+            if "minLength" in s:
+                ok &= len(x) >= s["minLength"]
+            if "maxLength" in s:
+                ok &= len(x) <= s["maxLength"]
+            if "pattern" in s:
+                ok &= re.search(s["pattern"], x) is not None
+        if isinstance(x, list):
+            if "minItems" in s:
+                ok &= len(x) >= s["minItems"]
+            if "maxItems" in s:
+                ok &= len(x) <= s["maxItems"]
+            if s.get("uniqueItems") is True:
+                ok &= not any(json_eq(x[i], x[j]) for i in range(len(x)) for j in range(i + 1, len(x)))
+            start = 0
+            if d == "2020":
+                if "prefixItems" in s:
+                    for i, sub in enumerate(s["prefixItems"][:len(x)]):
+                        ok &= self.ev(sub, x[i], depth + 1)[0]
+                        I.add(i)
+                    start = len(s["prefixItems"])
+                if "items" in s:
+                    if isinstance(s["items"], list):
+                        raise Unsupported("array-form items in 2020-12")
+                    for i in range(start, len(x)):
+                        ok &= self.ev(s["items"], x[i], depth + 1)[0]
+                        I.add(i)
+            else:
+                if "items" in s:
+                    if isinstance(s["items"], list):
+                        for i, sub in enumerate(s["items"][:len(x)]):
+                            ok &= self.ev(sub, x[i], depth + 1)[0]
+                            I.add(i)
+                        if "additionalItems" in s:
+                            for i in range(len(s["items"]), len(x)):
+                                ok &= self.ev(s["additionalItems"], x[i], depth + 1)[0]
+                                I.add(i)
+                    else:
+                        for i in range(len(x)):
+                            ok &= self.ev(s["items"], x[i], depth + 1)[0]
+                            I.add(i)
+            if "contains" in s and self.at_least("6"):
+                hits = [i for i in range(len(x)) if self.ev(s["contains"], x[i], depth + 1)[0]]
+                lo = s.get("minContains", 1) if new else 1
+                hi = s.get("maxContains") if new else None
+                ok &= len(hits) >= lo and (hi is None or len(hits) <= hi)
+                if d == "2020":
+                    I.update(hits)
+        if isinstance(x, dict):
+            if "required" in s:
+                ok &= all(k in x for k in s["required"])
+            if "minProperties" in s:
+                ok &= len(x) >= s["minProperties"]
+            if "maxProperties" in s:
+                ok &= len(x) <= s["maxProperties"]
+            if new and "dependentRequired" in s:
+                for k, req in s["dependentRequired"].items():
+                    if k in x:
+                        ok &= all(r in x for r in req)
+            if not new and "dependencies" in s:
+                for k, dep in s["dependencies"].items():
+                    if k in x:
+                        if isinstance(dep, list):
+                            ok &= all(r in x for r in dep)
+                        else:
+                            ok &= inplace(dep)
+            if new and "dependentSchemas" in s:
+                for k, dep in s["dependentSchemas"].items():
+                    if k in x:
+                        ok &= inplace(dep)
+            props = s.get("properties", {})
+            pats = s.get("patternProperties", {})
+            for k, sub in props.items():
+                if k in x:
+                    ok &= self.ev(sub, x[k], depth + 1)[0]
+                    P.add(k)
+            for pat, sub in pats.items():
+                for k in x:
+                    if re.search(pat, k):
+                        ok &= self.ev(sub, x[k], depth + 1)[0]
+                        P.add(k)
+            if "additionalProperties" in s:
+                for k in x:
+                    if k not in props and not any(re.search(pat, k) for pat in pats):
+                        ok &= self.ev(s["additionalProperties"], x[k], depth + 1)[0]
+                        P.add(k)
+            if "propertyNames" in s and self.at_least("6"):
+                for k in x:
+                    ok &= self.ev(s["propertyNames"], k, depth + 1)[0]
+        for sub in s.get("allOf", []):
+            ok &= inplace(sub)
+        if "anyOf" in s:
+            ok &= any([inplace(sub) for sub in s["anyOf"]])
+        if "oneOf" in s:
+            rs = [self.ev(sub, x, depth + 1) for sub in s["oneOf"]]
+            good = [r for r in rs if r[0]]
+            ok &= len(good) == 1
+            if len(good) == 1:
+                P.update(good[0][1])
+                I.update(good[0][2])
+        if "not" in s:
+            ok &= not self.ev(s["not"], x, depth + 1)[0]
+        if "if" in s and self.at_least("7"):
+            if inplace(s["if"]):
+                if "then" in s:
+                    ok &= inplace(s["then"])
+            elif "else" in s:
+                ok &= inplace(s["else"])
+        if new and "unevaluatedItems" in s and isinstance(x, list):
+            for i in range(len(x)):
+                if i not in I:
+                    ok &= self.ev(s["unevaluatedItems"], x[i], depth + 1)[0]
+                    I.add(i)
+        if new and "unevaluatedProperties" in s and isinstance(x, dict):
+            for k in x:
+                if k not in P:
+                    ok &= self.ev(s["unevaluatedProperties"], x[k], depth + 1)[0]
+                    P.add(k)
+        if not ok:
+            return False, set(), set()
+        return True, P, I
+
+    def is_type(self, x, t):
+        if t == "null":
+            return x is None
+        if t == "boolean":
+            return isinstance(x, bool)
+        if t == "string":
+            return isinstance(x, str)
+        if t == "array":
+            return isinstance(x, list)
+        if t == "object":
+            return isinstance(x, dict)
+        if t == "number":
+            return is_num(x)
+        if t == "integer":
+            if isinstance(x, bool):
+                return False
+            if isinstance(x, int):
+                return True
+            if isinstance(x, float):
+                if self.d == "4":
+                    raise Unsupported("draft 4 integer on a float")   # the driver abstains here anyway
+                return x.is_integer()
+            return False
+        raise Unsupported("type " + str(t))
+
+
+def spec_verdicts(d, schema, insts):
+    out = []
+    try:
+        sp = Spec(d, schema)
+    except Exception:
+        return "?" * len(insts)
+    for x in insts:
+        try:
+            out.append("1" if sp.valid(x) else "0")
+        except Exception:
+            out.append("?")
+    return "".join(out)
+
+
+# ---------------------------------------------------------------------------- python-jsonschema
+
+def _keys(s, acc):
+    if isinstance(s, dict):
+        for k, v in s.items():
+            acc.add(k)
+            _keys(v, acc)
+    elif isinstance(s, list):
+        for v in s:
+            _keys(v, acc)
+    return acc
+
+
+def _to_2020(s):
+    """2019-09 -> 2020-12 spelling of the array keywords (same semantics): items:[..] -> prefixItems,
+    additionalItems -> items (only meaningful next to array-form items)."""
+    if isinstance(s, list):
+        return [_to_2020(v) for v in s]
+    if not isinstance(s, dict):
+        return s
+    out = {}
+    for k, v in s.items():
+        if k == "items" and isinstance(v, list):
+            out["prefixItems"] = _to_2020(v)
+        elif k == "additionalItems":
+            if isinstance(s.get("items"), list):
+                out["items"] = _to_2020(v)
+        elif k in ("enum", "const", "required"):
+            out[k] = v
+        else:
+            out[k] = _to_2020(v)
+    return out
+
+
+def py_validator(d, schema):
+    """python-jsonschema 4.26 implements unevaluatedProperties/unevaluatedItems of draft 2019-09 with a rough
+    approximation (_legacy_keywords: an object-valued additionalProperties is read like `properties`, contains always
+    marks items, ...) that contradicts the 2019-09 text.  For 2019-09 schemas using unevaluated* the 2020-12 validator
+    is used on the respelled schema instead: for the generated vocabulary the two dialects differ only in the spelling
+    of items/additionalItems and in `contains` feeding unevaluatedItems (2020-12 only) -- in the latter case there is
+    no python-jsonschema opinion."""
+    if d == "2019":
+        ks = _keys(schema, set())
+        if "unevaluatedItems" in ks or "unevaluatedProperties" in ks:
+            if "unevaluatedItems" in ks and "contains" in ks:
+                return None
+            if "$ref" in ks:
+                refs = []
+                _refs(schema, refs)
+                if any("/items" in r or "/additionalItems" in r for r in refs):
+                    return None
+            t = _to_2020(schema)
+            return lambda: validators.Draft202012Validator(t)
+    cls = CLS[d]
+    return lambda: cls(schema)
+
+
+def _refs(s, acc):
+    if isinstance(s, dict):
+        for k, v in s.items():
+            if k == "$ref" and isinstance(v, str):
+                acc.append(v)
+            _refs(v, acc)
+    elif isinstance(s, list):
+        for v in s:
+            _refs(v, acc)
+
+
 def one(line):
     p = line.split(" ")
     if len(p) != 3:
@@ -46,14 +431,18 @@ def one(line):
         return "ERR check_schema %s %s" % (type(e).__name__, clean(e))
     out = []
     try:
-        for x in insts:
-            v = cls(schema)     # fresh validator per instance: the reference has no history
-            out.append("1" if v.is_valid(x) else "0")
+        mk = py_validator(d, schema)
+        if mk is None:
+            out = ["?"] * len(insts)
+        else:
+            for x in insts:
+                v = mk()     # fresh validator per instance: the reference has no history
+                out.append("1" if v.is_valid(x) else "0")
     except RecursionError:
         return "ERR RecursionError"
     except Exception as e:
         return "ERR %s %s" % (type(e).__name__, clean(e))
-    return "OK " + "".join(out)
+    return "OK " + "".join(out) + " " + spec_verdicts(d, schema, insts)
 
 
 def main():
